@@ -108,9 +108,13 @@ impl BuildOptimiser {
     }
 
     pub fn build(&self) -> MCOptimiser {
+        // The temperature is reduced once after each inner loop, so the number of reductions is the
+        // number of inner loops rather than the total number of steps.
+        let inner_steps = u64::max(1, u64::min(self.inner_steps, self.steps));
+        let loops = (self.steps / inner_steps) as f64;
         let kt_ratio = match (self.kt_ratio, self.kt_finish) {
             (Some(ratio), _) => 1. - ratio,
-            (None, Some(finish)) => f64::powf(finish / self.kt_start, 1. / self.steps as f64),
+            (None, Some(finish)) => f64::powf(finish / self.kt_start, 1. / loops),
             (None, None) => 0.1,
         };
         debug!("Setting kt_ratio to: {}", kt_ratio);
@@ -125,7 +129,7 @@ impl BuildOptimiser {
             max_step_size: self.max_step_size,
             steps: self.steps,
             // An inner loop always has at least one step, zero requested steps means zero loops.
-            inner_steps: u64::max(1, u64::min(self.inner_steps, self.steps)),
+            inner_steps,
             seed,
             convergence: self.convergence,
         }
